@@ -547,7 +547,7 @@ def _inlinable(fn) -> bool:
     if isinstance(fn, ast.AsyncFunctionDef) or (fn.decorator_list and not (_is_static(fn) or _is_classmethod(fn))):
         return False
     a = fn.args
-    if a.vararg or a.kwarg or a.posonlyargs:
+    if a.posonlyargs:
         return False
     for n in ast.walk(fn):
         if isinstance(n, (ast.Yield, ast.YieldFrom, ast.Await, ast.Global, ast.Nonlocal)):
@@ -560,7 +560,8 @@ def _inlinable(fn) -> bool:
 def _simple_arg(e) -> bool:
     if isinstance(e, (ast.Name, ast.Constant)):
         return True
-    return False
+    # an attribute chain on a name that looks like a class / module constant (InvocationState.WAIT, pm_types.X.Y)
+    return isinstance(e, ast.Attribute) and _pure(e) and e.attr.isupper()
 
 
 def _bind(fn, call, is_method, caller_names, log_name):
@@ -573,20 +574,30 @@ def _bind(fn, call, is_method, caller_names, log_name):
             defaults[a.arg] = d
     actual = {}
     pos = list(call.args)
-    if any(isinstance(x, ast.Starred) for x in pos) or any(k.arg is None for k in call.keywords):
-        raise _Bail('star arguments')
     plist = params[1:] if is_method else params
-    if len(pos) > len(plist):
-        raise _Bail('too many arguments')
+    n_named = len(fn.args.args) - (1 if is_method else 0)
+    if any(isinstance(x, ast.Starred) for x in pos[:n_named]):
+        raise _Bail('star arguments')
+    extra_pos, extra_kw = [], []
+    if len(pos) > n_named:
+        if not fn.args.vararg:
+            raise _Bail('too many arguments')
+        extra_pos, pos = pos[n_named:], pos[:n_named]
     order = []
     for p, v in zip(plist, pos):
         actual[p] = v
         order.append(p)
     for k in call.keywords:
-        if k.arg not in plist or k.arg in actual:
+        if k.arg is None or k.arg not in plist:
+            if not fn.args.kwarg:
+                raise _Bail('keyword mismatch')
+            extra_kw.append(k)
+            continue
+        if k.arg in actual:
             raise _Bail('keyword mismatch')
         actual[k.arg] = k.value
         order.append(k.arg)
+    _bind.extras = (extra_pos, extra_kw)
     for p in plist:
         if p not in actual:
             if p not in defaults:
@@ -619,6 +630,47 @@ def _bind(fn, call, is_method, caller_names, log_name):
     return prefix, mapping
 
 
+def _pass_through(body, fn, extra_pos, extra_kw):
+    """*args / **kwargs of a wrapper that only hands them on (`f(a, *args, **kwargs)`): put the call site's extra arguments
+    there.  Any other use of the two names makes the helper non-inlinable."""
+    va = fn.args.vararg.arg if fn.args.vararg else None
+    ka = fn.args.kwarg.arg if fn.args.kwarg else None
+
+    class P(ast.NodeTransformer):
+        def visit_Call(self, node):  # noqa: N802
+            self.generic_visit(node)
+            new_args = []
+            for a in node.args:
+                if isinstance(a, ast.Starred) and isinstance(a.value, ast.Name) and a.value.id == va:
+                    new_args.extend(clone(x) for x in extra_pos)
+                else:
+                    new_args.append(a)
+            new_kw = []
+            for k in node.keywords:
+                if k.arg is None and isinstance(k.value, ast.Name) and k.value.id == ka:
+                    new_kw.extend(clone(x) for x in extra_kw)
+                else:
+                    new_kw.append(k)
+            node.args, node.keywords = new_args, new_kw
+            return node
+    # legal uses only: f(.., *args, ..) and f(.., **kwargs)
+    legal = set()
+    for s in body:
+        for c in ast.walk(s):
+            if isinstance(c, ast.Call):
+                for a in c.args:
+                    if isinstance(a, ast.Starred) and isinstance(a.value, ast.Name) and a.value.id == va:
+                        legal.add(id(a.value))
+                for k in c.keywords:
+                    if k.arg is None and isinstance(k.value, ast.Name) and k.value.id == ka:
+                        legal.add(id(k.value))
+    for s in body:
+        for x in ast.walk(s):
+            if isinstance(x, ast.Name) and x.id in (va, ka) and id(x) not in legal:
+                raise _Bail('*args / **kwargs used other than for handing on')
+    return [P().visit(s) for s in body]
+
+
 def _expand(fn, call, stmt, kind, is_method, caller_names):
     """Statements replacing `stmt` (which contains `call` in position `kind`)."""
     prefix, mapping = _bind(fn, call, is_method, caller_names, fn.name)
@@ -633,6 +685,8 @@ def _expand(fn, call, stmt, kind, is_method, caller_names):
                         if isinstance(t, ast.Name) and t.id in mapping:
                             raise _Bail('comprehension variable shadows a substituted name')
     body = [_Subst(mapping).visit(s) for s in body]
+    if fn.args.vararg or fn.args.kwarg:
+        body = _pass_through(body, fn, *_bind.extras)
     tmp = None
 
     def k(value, ret, fallthrough=False):
@@ -777,6 +831,8 @@ def _single_return_expr(fn):
 def _inline_expression(fn, expr, is_target, is_method, callers, counter):
     """helper(args) -> the helper's single return expression with the parameters replaced, at every call site where each
     argument is pure (name / attribute chain / constant) or its parameter is used at most once."""
+    if fn.args.vararg or fn.args.kwarg:
+        return
     params = [a.arg for a in fn.args.args]
     plist = params[1:] if is_method else params
     defaults = dict(zip(params[len(params) - len(fn.args.defaults):], fn.args.defaults))
